@@ -481,6 +481,14 @@ func execHybrid(c hyCase, x *verifkit.Ctx, c15 bool) (fail *verifkit.Failure) {
 					model[k] = &hyModel{val: fv}
 				}
 				m := model[k]
+				if c.Loading && steering() && (m == nil || m.unknown || m.deleted || (m.deadline != 0 && now() >= m.deadline)) {
+					// the Get would miss and run the loader, i.e. WRITE the key in place while the worker is
+					// copying its old value: the worker then removes the re-written entry from the map and the
+					// old copy stays behind (known finding C14-stale-copy, write racing a demotion). Steered.
+					x.Class("steered(known C14-stale-copy)")
+					verifkit.AddCount("steered_known_C14_stale_copy", 1)
+					return nil
+				}
 				calls := loaderCalls
 				at := now()
 				hit, f := read(k)
